@@ -568,6 +568,10 @@ def errOf {α : Type} (p : Option α) (e : Status) : Option Status :=
   | none => some e
   | some _ => none
 
+/-- `x++` / `x--` on a `uint64` -/
+def incU64 (x : Nat) : Nat := if x = 18446744073709551615 then 0 else x + 1
+def decU64 (x : Nat) : Nat := if x = 0 then 18446744073709551615 else x - 1
+
 /-- side effects a translated function performs through calls it does not inline -/
 inductive Eff where
   | checkClientsConsistent (id : String) (p : Option ClientParams)
